@@ -45,6 +45,16 @@ def kind_slots(repo):
     return out, fi
 
 
+def string_predicates(repo):
+    """Names of fns `fn f(x: &str) -> bool` (the appl_* helpers): always inlined."""
+    out = set()
+    for fi in repo.fns(ATTR):
+        sig = fi.node["sig"]
+        if sig["output"].replace(" ", "") == "bool" and len(sig["inputs"]) == 1 and sig["inputs"][0].get("ty", "").replace(" ", "") == "&str":
+            out.add(fi.name)
+    return out
+
+
 def instr_table(repo, fn_name, flags=("own_instr", "bark")):
     """Partially evaluate parse_*_instruction over its finite name domain.
 
@@ -53,8 +63,10 @@ def instr_table(repo, fn_name, flags=("own_instr", "bark")):
     fi = repo.fn(ATTR, fn_name)
     ev_holder = {}
 
+    preds = string_predicates(repo)
+
     def mk():
-        return Evaluator(repo, IMPL_FILES)
+        return Evaluator(repo, IMPL_FILES, shallow=True, transparent=preds)
 
     def run(ev):
         args = ev.sym_params(fi)
